@@ -244,6 +244,19 @@ func (k *keyManagementContext) rotateTheirKey(senderKeyID uint32, pubDHKey *big.
 }
 
 func (k *keyManagementContext) calculateDHSessionKeys(ourKeyID, theirKeyID uint32, v otrVersion) (sessionKeys, error) {
+	ret, err := k.calculateDHSessionKeysWithoutHistory(ourKeyID, theirKeyID, v)
+	if err != nil {
+		return ret, err
+	}
+
+	k.macKeyHistory.addKeys(ourKeyID, theirKeyID, ret.receivingMACKey)
+
+	return ret, nil
+}
+
+// calculateDHSessionKeysWithoutHistory is used for a message that has not been
+// authenticated yet: its key ids must not leave a trace in the MAC key history
+func (k *keyManagementContext) calculateDHSessionKeysWithoutHistory(ourKeyID, theirKeyID uint32, v otrVersion) (sessionKeys, error) {
 	var ret sessionKeys
 
 	ourPrivKey, ourPubKey, err := k.pickOurKeys(ourKeyID)
@@ -257,7 +270,6 @@ func (k *keyManagementContext) calculateDHSessionKeys(ourKeyID, theirKeyID uint3
 	}
 
 	ret = calculateDHSessionKeys(ourPrivKey, ourPubKey, theirPubKey, v)
-	k.macKeyHistory.addKeys(ourKeyID, theirKeyID, ret.receivingMACKey)
 
 	return ret, nil
 }
